@@ -119,7 +119,9 @@ def betaMulti(therm : MulticomponentThermodynamics, x, T, Rcrit,  matrix : Matri
     indices = Rcrit != 0
 
     beta = np.zeros(Rcrit.shape)
-    beta[indices] = np.array([therm.impingementFactor(xi, Ti, precPhase=precipitate.phase, removeCache=removeCache, searchDir=searchDir) for xi, Ti in zip(x[indices], T[indices])])
+    #impingementFactor returns None if no equilibrium was found (and there is no previous value), this is treated as no nucleation
+    betas = [therm.impingementFactor(xi, Ti, precPhase=precipitate.phase, removeCache=removeCache, searchDir=searchDir) for xi, Ti in zip(x[indices], T[indices])]
+    beta[indices] = np.array([0 if b is None else b for b in betas])
     beta[indices] *= (precipitate.nucleation.areaFactor * Rcrit[indices]**2 / matrix.volume.a**4)
     return np.squeeze(beta)
 
